@@ -63,7 +63,8 @@ def split_blocks(seq, n):
 
 def gen(case, root):
     edges = {tuple(e): "base" for e in case["edges"]}
-    return modgen.write_module(root, case["k"], edges)
+    return modgen.write_module(root, case["k"], edges, chains=bool(case.get("chains")),
+                               enum_only=tuple(case.get("enum_only", ())))
 
 
 def igate_all(b, root, libs):
@@ -88,7 +89,9 @@ def run_case(ctx, case):
     b = core.build("asan")
     root = ctx.casedir(case["id"])
     k = case["k"]
-    edges = [tuple(e) for e in case["edges"]]
+    eo = set(case.get("enum_only", ()))
+    # an enum-only library has no classes: edges from or to it are not realised
+    edges = [tuple(e) for e in case["edges"] if e[0] not in eo and e[1] not in eo]
     libs = gen(case, root)
     ins, err = igate_all(b, root, libs)
     if ins is None:
@@ -170,7 +173,10 @@ def run_case(ctx, case):
                                   edge=[u, v], perm=perm)
     if case.get("build") and not cyc:
         build_and_import(res, b, root, libs, ins, edges, k)
-    res.sample = dict(k=k, edges=edges, perms=len(case["perms"]), cyclic=cyc)
+    res.sample = dict(k=k, edges=edges, perms=len(case["perms"]), cyclic=cyc, chains=bool(case.get("chains")),
+                      enum_only=sorted(eo))
+    if case.get("chains"):
+        res.features.add(sig + ":chains" + (":enum-only-lib" if eo else ""))
     shutil.rmtree(root, ignore_errors=True)
     return res
 
@@ -202,7 +208,8 @@ def build_and_import(res, b, root, libs, ins, edges, k):
             lines.append(f"assert o.base_id_{j}() == {100 + j}, ('inherited', {dname!r})")
             lines.append(f"assert o.vid() == o.own_id(), ('virtual', {dname!r})")
             lines.append(f"assert isinstance(o, mod.R{j}), ('isinstance', {dname!r})")
-        lines.append(f"assert mod.R{L['name'][3:]}().vid() == {100 + int(L['name'][3:])}")
+        if not L.get("enum_only"):
+            lines.append(f"assert mod.R{L['name'][3:]}().vid() == {100 + int(L['name'][3:])}")
     lines.append("print('IMPORT-OK')")
     r = core.run([sys.executable, "-c", "\n".join(lines)], timeout=60)
     res.count("modules_imported")
@@ -279,6 +286,15 @@ def main(chk):
             if rng.random() < 0.25:
                 cid += 1
                 cases.append(dict(id=cid, k=4, edges=edges, perms=[rng.sample(range(4), 4) for _ in range(3)], build=False))
+    # three-level cross-library chains and libraries that contribute only enums (no functions at all)
+    for n in range(chk.pick(12, 150)):
+        k = rng.choice([3, 3, 4])
+        pairs = [(i, j) for i in range(k) for j in range(k) if i != j]
+        edges = [p for p in pairs if rng.random() < 0.4]
+        eo = [rng.randrange(k)] if rng.random() < 0.6 else []
+        cid += 1
+        cases.append(dict(id=cid, k=k, edges=edges, perms=[list(p) for p in itertools.permutations(range(k))] if k == 3 else
+                          [rng.sample(range(k), k) for _ in range(6)], build=False, chains=True, enum_only=eo))
     # built + imported acyclic modules
     nb = 0
     tries = 0
